@@ -10,20 +10,20 @@ open Hms.Core Hms.Core.Comp Hms.Core.VM
 /-- Inversion of `okGS` on expression statements. -/
 theorem okGS_exprS_inv (fr il rt : Bool) (sp : Span) (e : Expr) (h : Frag.okFS fr il rt (.exprS sp e) = true) :
     (∃ asp op isp ity name isFn r,
-      e = .assign asp op (.ident isp ity name false isFn false) r ∧ Frag.okXE r = true ∧
+      e = .assign asp op (.ident isp ity name false isFn false) r ∧ Frag.okV fr r = true ∧
       (∀ o, op = some o → Frag.isLogical o = false)) ∨
-    (∃ isp ty c t eb, e = .ifE isp ty c t (some eb) ∧ ty.isNull = true ∧ Frag.okGE c = true ∧
+    (∃ isp ty c t eb, e = .ifE isp ty c t (some eb) ∧ ty.isNull = true ∧ Frag.okE fr c = true ∧
       Frag.okFBS fr il rt t = true ∧ Frag.okFBS fr il rt eb = true) ∨
-    (∃ isp ty c t, e = .ifE isp ty c t none ∧ ty.isNull = true ∧ Frag.okGE c = true ∧ Frag.okFBS fr il rt t = true) ∨
+    (∃ isp ty c t, e = .ifE isp ty c t none ∧ ty.isNull = true ∧ Frag.okE fr c = true ∧ Frag.okFBS fr il rt t = true) ∨
     (∃ csp cty isp ity name g f si args sw, e = .call csp cty (.ident isp ity name g f si) args sw ∧
-      ((name = "println" ∧ cty.isNull = true ∧ sw = false ∧ Frag.okGArgs args = true ∧
+      ((name = "println" ∧ cty.isNull = true ∧ sw = false ∧ Frag.okEArgs fr args = true ∧
           Frag.oneNonAtom args = true ∧ args.length < 2 ^ 64) ∨
        (name ≠ "println" ∧ name ≠ "throw" ∧ cty.isNull = false ∧
-          Frag.okGE (.call csp cty (.ident isp ity name g f si) args sw) = true) ∨
+          Frag.okE fr (.call csp cty (.ident isp ity name g f si) args sw) = true) ∨
        (name = "throw" ∧ sw = false ∧ ∃ a, args = [a] ∧ Frag.atomE a.2 = true))) ∨
     (∃ tsp ty t ci c, e = .tryE tsp ty t ci c ∧ ty.isNull = true ∧ Frag.okFBS fr false false t = true ∧
       Frag.okFBS fr il rt c = true) ∨
-    (∃ msp ty c arms db, e = .matchE msp ty c arms (some (.blockE db)) ∧ ty.isNull = true ∧ Frag.okGE c = true ∧
+    (∃ msp ty c arms db, e = .matchE msp ty c arms (some (.blockE db)) ∧ ty.isNull = true ∧ Frag.okE fr c = true ∧
       Frag.okFArmsS fr il rt arms = true ∧ Frag.okFBS fr il rt db = true) ∨
     (∃ asp op isp ity b i r, e = .assign asp op (.index isp ity b i) r) ∨
     (∃ asp op msp mty b name r, e = .assign asp op (.member msp mty b name .dot) r) ∨
@@ -73,7 +73,7 @@ theorem okGS_exprS_inv (fr il rt : Bool) (sp : Span) (e : Expr) (h : Frag.okFS f
       rename_i a rest
       cases rest <;> cases sw <;> try (simp [Frag.okFS] at h; done)
       simp only [Frag.okFS, Bool.and_eq_true, beq_iff_eq] at h
-      obtain ⟨⟨⟨⟨_, rfl⟩, _⟩, _⟩, _⟩ := h
+      obtain ⟨⟨⟨⟨⟨_, rfl⟩, _⟩, _⟩, _⟩, _⟩ := h
       right; right; right; right; right; right; right; right
       exact ⟨csp, cty, msp, mty, b, a, rfl⟩
     right; right; right; left
@@ -258,29 +258,18 @@ theorem pgs_step (G : GCtx) (hG : G.OK') (n : Nat) (hPE : ∀ m, m ≤ n → PE 
     rename_i rsp a b incl
     exact hPF A hA loops lscopes d sp name vty rsp a b incl bsp bty stmts env spec ip stk mem hs hT hws hN hpl hd hls hrel hsp
   case letS sp name vty needsCast oty e =>
-    simp only [Frag.okFS, Bool.and_eq_true, Bool.not_eq_eq_eq_not, Bool.not_true, Bool.or_eq_true] at hs
+    simp only [Frag.okFS, Bool.and_eq_true, Bool.not_eq_eq_eq_not, Bool.not_true] at hs
     obtain ⟨hnc, he⟩ := hs
     subst hnc
-    simp only [Frag.wsGS, Bool.and_eq_true] at hws
+    simp only [Frag.wsGS] at hws
     simp only [Frag.identsGS, List.mem_cons] at hT
     simp only [cgS] at hN hpl ⊢
-    generalize hce : cgL G.mod (ρS env.scopes) A.φ e env.lm = ce at hN hpl ⊢
+    generalize hce : cgE G.mod (ρS env.scopes) A.φ e env.lm = ce at hN hpl ⊢
     obtain ⟨hplE, hplS⟩ := hpl.append
     obtain ⟨iset, _⟩ := hplS.instr (i := .setVar (freshVar G.mod { env with lm := ce.2 } name).1) rfl
     have hNm : A.N (freshVar G.mod { env with lm := ce.2 } name).1 := hN _ (by simp [codeVars, var?])
-    have h1 : SimOE G A ip (nI (cgL G.mod (ρS env.scopes) A.φ e env.lm).1) stk mem spec (evalExpr G.cfg n e spec) := by
-      rcases he with he | ⟨hfr, hlen⟩
-      · rw [cgL_of_okXE _ _ _ he]
-        rw [varsL_of_okXE he, callsL_of_okXE he] at hws
-        exact px_all G n hPE A hA e spec ip stk mem env.lm env.scopes env.vm he
-          (by simp only [Frag.wsGE, Bool.and_eq_true]; exact hws)
-          (fun x hx => hT x (Or.inr (by
-            simp only [Frag.namesL, varsL_of_okXE he, callsL_of_okXE he]; exact hx)))
-          (by rw [← cgL_of_okXE _ _ _ he, hce]; exact hplE) hrel.rel hsp
-      · obtain ⟨csp, cty, msp, mty, b, rfl, hb⟩ := lenCallOK_inv hlen
-        exact len_sim G n (fun m hm => px_all G m (fun m' hm' => hPE m' (by omega))) A hA csp cty msp mty b spec ip stk mem
-          env.lm env.scopes env.vm hfr hb (by simp only [Frag.wsGE, Bool.and_eq_true]; exact hws)
-          (fun x hx => hT x (Or.inr hx)) (by rw [hce]; exact hplE) hrel.rel hsp
+    have h1 := pv_all G n hPE A hA e spec ip stk mem env.lm env.scopes env.vm he hws (fun x hx => hT x (Or.inr hx))
+      (hce ▸ hplE) hrel.rel hsp
     rw [hce] at h1
     rw [evalStmt_let]
     rcases hev : evalExpr G.cfg n e spec with ⟨r1, st1⟩
@@ -331,8 +320,8 @@ theorem pgs_step (G : GCtx) (hG : G.OK') (n : Nat) (hPE : ∀ m, m ≤ n → PE 
       cases r1 with
       | error ce' => exact SimGS.of_exprError _ hrel hls h1
       | ok v =>
-        obtain ⟨hfr, mem1, hrun, hml⟩ := h1
-        refine ⟨hrt, by rw [hfr], mem1, hrun.trans (Runs.of_runsTo (fr := G.fr) (fun it_ => RunsTo.of_exec1 (fun k =>
+        obtain ⟨hfr, mem1, ov, hov, hrun, hml⟩ := h1
+        refine ⟨hrt, by rw [hfr], mem1, ov, hov, hrun.trans (Runs.of_runsTo (fr := G.fr) (fun it_ => RunsTo.of_exec1 (fun k =>
           reach_jump G.code G.lim (baseOf (withIt G.s it_) A.fn A.rest A.mp st1.world) _ k _ mem1 ⟨A.fn, 0⟩ A.rest A.c rfl
             hA.code (A.lab A.cl) sp ijmp))), hml.mono (by omega)⟩
   case brk sp =>
@@ -400,7 +389,7 @@ theorem pgs_step (G : GCtx) (hG : G.OK') (n : Nat) (hPE : ∀ m, m ≤ n → PE 
     rotate_right
     · -- `l.push(x);`
       rw [evalStmt_exprS]
-      exact SimGS.exprS _ (push_step G n (fun m hm => px_all G m (fun m' hm' => hPE m' (by omega))) A hA loops lscopes d sp csp cty
+      exact SimGS.exprS _ (push_step G n (fun m hm => pv_all G m (fun m' hm' => hPE m' (by omega))) A hA loops lscopes d sp csp cty
         msp mty b a env spec ip stk mem hs hT hws hpl hls hrel hsp)
     rotate_right
     · -- `o.f = e`, `o.f op= e`
@@ -409,8 +398,8 @@ theorem pgs_step (G : GCtx) (hG : G.OK') (n : Nat) (hPE : ∀ m, m ≤ n → PE 
       | 0, _ => rw [evalExpr]; trivial
       | 1, _ => rw [evalExpr_assign_gen, evalPlace]; trivial
       | n' + 2, hPE =>
-      exact SimGS.exprS _ (memAssign_step G n' (px_all G n' (fun m hm => hPE m (by omega)))
-        (px_all G (n' + 1) (fun m hm => hPE m (by omega))) A hA loops lscopes d sp asp op msp mty b name r env spec ip stk mem
+      exact SimGS.exprS _ (memAssign_step G n' (pv_all G n' (fun m hm => hPE m (by omega)))
+        (pv_all G (n' + 1) (fun m hm => hPE m (by omega))) A hA loops lscopes d sp asp op msp mty b name r env spec ip stk mem
         hs hT hws hpl hls hrel hsp)
     rotate_right
     · -- `l[i] = e`, `l[i] op= e`
@@ -419,8 +408,8 @@ theorem pgs_step (G : GCtx) (hG : G.OK') (n : Nat) (hPE : ∀ m, m ≤ n → PE 
       | 0, _ => rw [evalExpr]; trivial
       | 1, _ => rw [evalExpr_assign_gen, evalPlace]; trivial
       | n' + 2, hPE =>
-      exact SimGS.exprS _ (idxAssign_step G n' (px_all G n' (fun m hm => hPE m (by omega)))
-        (px_all G (n' + 1) (fun m hm => hPE m (by omega))) A hA loops lscopes d sp asp op isp ity b i r env spec ip stk mem
+      exact SimGS.exprS _ (idxAssign_step G n' (pv_all G n' (fun m hm => hPE m (by omega)))
+        (pv_all G (n' + 1) (fun m hm => hPE m (by omega))) A hA loops lscopes d sp asp op isp ity b i r env spec ip stk mem
         hs hT hws hpl hls hrel hsp)
     · -- assignments
       simp only [Frag.wsGS, Bool.and_eq_true] at hws
@@ -443,7 +432,7 @@ theorem pgs_step (G : GCtx) (hG : G.OK') (n : Nat) (hPE : ∀ m, m ≤ n → PE 
       | 0, _, _, _, _, _ => rw [evalExpr]; trivial
       | 1, _, _, _, _, _ => rw [evalExpr_assign_short]; trivial
       | n' + 2, hPE, _, _, _, _ =>
-      have hPE1 := px_all G (n' + 1) (fun m hm => hPE m (by omega))
+      have hPE1 := pv_all G (n' + 1) (fun m hm => hPE m (by omega))
       cases op with
       | none =>
         simp only [cgS, hρ, Option.getD_some] at hN hpl ⊢
@@ -572,7 +561,7 @@ theorem pgs_step (G : GCtx) (hG : G.OK') (n : Nat) (hPE : ∀ m, m ≤ n → PE 
       cases r1 with
       | error ce' => exact SimGS.of_exprError _ hrel hls h1
       | ok v =>
-        obtain ⟨hfr, mem1, hrun, hml⟩ := h1
+        obtain ⟨hfr, mem1, ov, hov, hrun, hml⟩ := h1
         have hsp1 := hsp.world st1 hfr hrun.inv
         have hfr' : st1 = { spec with scopes := st1.scopes, out := st1.out, heap := st1.heap } := by rw [hfr]
         have hrel1 : GRel G A env.scopes env.vm st1.scopes mem1 := by rw [hfr]; exact hrel.memLe hml
@@ -580,7 +569,7 @@ theorem pgs_step (G : GCtx) (hG : G.OK') (n : Nat) (hPE : ∀ m, m ≤ n → PE 
         rename_i bv
         have hjif := Runs.of_runsTo (fr := G.fr) (fun it_ => RunsTo.of_exec1 (fun k =>
           reach_jumpIfFalse G.code G.lim (baseOf (withIt G.s it_) A.fn A.rest A.mp st1.world) _ k stk mem1 ⟨A.fn, 0⟩ A.rest A.c rfl
-            hA.code (A.lab els.1) isp bv none ijif))
+            hA.code (A.lab els.1) isp bv ov ijif))
         cases bv with
         | true =>
           simp only []
@@ -661,7 +650,7 @@ theorem pgs_step (G : GCtx) (hG : G.OK') (n : Nat) (hPE : ∀ m, m ≤ n → PE 
       cases r1 with
       | error ce' => exact SimGS.of_exprError _ hrel hls h1
       | ok v =>
-        obtain ⟨hfr, mem1, hrun, hml⟩ := h1
+        obtain ⟨hfr, mem1, ov, hov, hrun, hml⟩ := h1
         have hsp1 := hsp.world st1 hfr hrun.inv
         have hfr' : st1 = { spec with scopes := st1.scopes, out := st1.out, heap := st1.heap } := by rw [hfr]
         have hrel1 : GRel G A env.scopes env.vm st1.scopes mem1 := by rw [hfr]; exact hrel.memLe hml
@@ -669,7 +658,7 @@ theorem pgs_step (G : GCtx) (hG : G.OK') (n : Nat) (hPE : ∀ m, m ≤ n → PE 
         rename_i bv
         have hjif := Runs.of_runsTo (fr := G.fr) (fun it_ => RunsTo.of_exec1 (fun k =>
           reach_jumpIfFalse G.code G.lim (baseOf (withIt G.s it_) A.fn A.rest A.mp st1.world) _ k stk mem1 ⟨A.fn, 0⟩ A.rest A.c rfl
-            hA.code (A.lab aft.1) isp bv none ijif))
+            hA.code (A.lab aft.1) isp bv ov ijif))
         cases bv with
         | true =>
           simp only []
@@ -742,12 +731,13 @@ theorem pgs_step (G : GCtx) (hG : G.OK') (n : Nat) (hPE : ∀ m, m ≤ n → PE 
           cases r1 with
           | error c1 => exact SimGS.of_argsError _ hrel hls h1
           | ok vals =>
-            obtain ⟨hfr, mem1, hrun, hml⟩ := h1
+            obtain ⟨hfr, mem1, svs, hsv, _, hrun, hml⟩ := h1
             simp only []
             have hsp1 := hsp.world st1 hfr hrun.inv
             have hvl : vals.length = args.length := by
               have := evalList_length G.cfg _ _ _ _ _ hea
               simpa using this
+            have hsvl : svs.length = vals.length := by rw [← hsv, List.length_map]
             rw [applyFn_builtin, println_run]
             cases hpt : printText st1.heap vals with
             | none => trivial
@@ -755,16 +745,16 @@ theorem pgs_step (G : GCtx) (hG : G.OK') (n : Nat) (hPE : ∀ m, m ≤ n → PE 
               simp only []
               have hrelm : GRel G A env.scopes env.vm spec.scopes mem1 := hrel.memLe hml
               have hg := Runs.of_exec1 (fr := G.fr) (fun it_ k => mkS_getGlob_builtin G.code G.lim (withIt G.s it_) A.fn (ip + nI CA.1) A.rest A.mp
-                k (vals.map (⟨·, none⟩) ++ stk) mem1 st1.world A.c hA.code "println" csp iglob hG.println (by decide))
+                k (svs ++ stk) mem1 st1.world A.c hA.code "println" csp iglob hG.println (by decide))
               have hp := Runs.of_runsTo (fr := G.fr) (fun it_ => RunsTo.of_exec1 (fun k =>
                 reach_push G.code G.lim (baseOf (withIt G.s it_) A.fn A.rest A.mp st1.world) (ip + nI CA.1 + 1) k
-                  (⟨.builtin "println", none⟩ :: (vals.map (⟨·, none⟩) ++ stk)) mem1 ⟨A.fn, 0⟩ A.rest A.c rfl hA.code
+                  (⟨.builtin "println", none⟩ :: (svs ++ stk)) mem1 ⟨A.fn, 0⟩ A.rest A.c rfl hA.code
                   (.int args.length) csp (.int (I64.ofInt args.length)) ipush (fun _ => rfl)))
               have hc := Runs.of_exec1W (fr := G.fr) (fun it_ k => mkS_callVal_println G.code G.lim (withIt G.s it_) A.fn (ip + nI CA.1 + 1 + 1)
-                A.rest A.mp k stk mem1 st1.world A.c hA.code csp (vals.map (⟨·, none⟩)) none none t icall
-                (by simpa [hvl] using hlen)
-                (by simpa [List.map_map, Function.comp_def, St.world] using hpt)) (fun hi => hi)
-              simp only [List.length_map, hvl] at hc
+                A.rest A.mp k stk mem1 st1.world A.c hA.code csp svs none none t icall
+                (by rw [hsvl, hvl]; exact hlen)
+                (by rw [hsv]; exact hpt)) (fun hi => hi)
+              simp only [hsvl, hvl] at hc
               refine ⟨by rw [hfr], mem1, (((hrun.trans hg).trans hp).trans hc).cast (by omega),
                 hml.mono (by omega), ?_⟩
               show GRel G A env.scopes env.vm st1.scopes mem1
@@ -798,10 +788,10 @@ theorem pgs_step (G : GCtx) (hG : G.OK') (n : Nat) (hPE : ∀ m, m ≤ n → PE 
         cases r1 with
         | error ce' => exact SimGS.of_exprError _ hrel hls h1
         | ok v =>
-          obtain ⟨hfr, mem1, hrun, hml⟩ := h1
+          obtain ⟨hfr, mem1, ov, hov, hrun, hml⟩ := h1
           refine ⟨by rw [hfr], mem1, (hrun.trans (Runs.of_runsTo (fr := G.fr) (fun it_ => RunsTo.of_exec1 (fun k =>
             reach_drop G.code G.lim (baseOf (withIt G.s it_) A.fn A.rest A.mp st1.world) _ k stk mem1 ⟨A.fn, 0⟩ A.rest A.c rfl
-              hA.code sp ⟨v, none⟩ idrop)))).cast ?_, hml.mono (by omega), ?_⟩
+              hA.code sp ⟨v, ov⟩ idrop)))).cast ?_, hml.mono (by omega), ?_⟩
           · rw [nI_append, nI_instr _ _ _ rfl]; simp only [nI_nil]; omega
           · rw [hfr]; exact hrel.memLe hml
       · -- `throw(a)` with an atom `a`
@@ -1062,12 +1052,12 @@ theorem pgs_step (G : GCtx) (hG : G.OK') (n : Nat) (hPE : ∀ m, m ≤ n → PE 
       cases r1 with
       | error ce' => exact SimGS.of_exprError _ hrel hls h1
       | ok cv =>
-        obtain ⟨hfr, mem1, hrun1, hml⟩ := h1
+        obtain ⟨hfr, mem1, ov1, hov1, hrun1, hml⟩ := h1
         simp only []
         have hsp1 := hsp.world st1 hfr hrun1.inv
         have hfr' : st1 = { spec with scopes := st1.scopes, out := st1.out, heap := st1.heap } := by rw [hfr]
         have hrel1 : GRel G A env.scopes env.vm st1.scopes mem1 := by rw [hfr]; exact hrel.memLe hml
-        have htest := armTests_run G A hA msp ⟨cv, none⟩ stk mem1 st1.world arms aft.2 (ip + nI CC.1) hlit
+        have htest := armTests_run G A hA msp ⟨cv, ov1⟩ stk mem1 st1.world arms aft.2 (ip + nI CC.1) hlit
           (hTs ▸ hplT)
         rw [hTs] at htest
         have hlen : arms.length = ts.2.1.length := by rw [← hTs, armTests_length]
@@ -1085,7 +1075,7 @@ theorem pgs_step (G : GCtx) (hG : G.OK') (n : Nat) (hPE : ∀ m, m ≤ n → PE 
               hmarms hwa (hBs ▸ hplB) i a nm hi hnm
           rw [hBs] at hvmi2 hcv
           have hdrop := Runs.of_runsTo (fr := G.fr) (fun it_ => RunsTo.of_exec1 (fun k => reach_drop G.code G.lim
-            (baseOf (withIt G.s it_) A.fn A.rest A.mp st1.world) (A.lab nm) k stk mem1 ⟨A.fn, 0⟩ A.rest A.c rfl hA.code msp ⟨cv, none⟩
+            (baseOf (withIt G.s it_) A.fn A.rest A.mp st1.world) (A.lab nm) k stk mem1 ⟨A.fn, 0⟩ A.rest A.c rfl hA.code msp ⟨cv, ov1⟩
             idr))
           have hpre : Runs G.fr G.code G.lim G.s A.fn A.rest A.mp ip stk mem spec.world (A.lab nm + 1) stk mem1 st1.world :=
             (hrun1.trans hrunT).trans hdrop
@@ -1120,11 +1110,11 @@ theorem pgs_step (G : GCtx) (hG : G.OK') (n : Nat) (hPE : ∀ m, m ≤ n → PE 
           have hh' : armsHit st1.world.heap cv arms = some none := hh
           rw [hh'] at htest
           have hjd := Runs.of_runsTo (fr := G.fr) (fun it_ => RunsTo.of_exec1 (fun k => reach_jump G.code G.lim
-            (baseOf (withIt G.s it_) A.fn A.rest A.mp st1.world) _ k (⟨cv, none⟩ :: stk) mem1 ⟨A.fn, 0⟩ A.rest A.c rfl hA.code
+            (baseOf (withIt G.s it_) A.fn A.rest A.mp st1.world) _ k (⟨cv, ov1⟩ :: stk) mem1 ⟨A.fn, 0⟩ A.rest A.c rfl hA.code
             (A.lab dfl.1) msp ijd))
           have hdrop := Runs.of_runsTo (fr := G.fr) (fun it_ => RunsTo.of_exec1 (fun k => reach_drop G.code G.lim
             (baseOf (withIt G.s it_) A.fn A.rest A.mp st1.world) (A.lab dfl.1) k stk mem1 ⟨A.fn, 0⟩ A.rest A.c rfl hA.code msp
-            ⟨cv, none⟩ (by rw [edfl]; exact idrop)))
+            ⟨cv, ov1⟩ (by rw [edfl]; exact idrop)))
           have hpre : Runs G.fr G.code G.lim G.s A.fn A.rest A.mp ip stk mem spec.world
               (ip + nI CC.1 + nI ts.1 + 1 + nI bs.1 + 1) stk mem1 st1.world :=
             (((hrun1.trans htest).trans hjd).trans hdrop).cast (by rw [edfl])
